@@ -142,6 +142,6 @@ def run(tier, seed):
 
 
 def replay(path, seed):
-    c = Check(PROP, "quick", seed, "model_checking")
+    c = Check(PROP, "quick", seed, "model_checking", replay=True)
     c.validate("db", "DbVerifyTrace", "DbVerifyTrace.cfg", os.path.abspath(path))
     return c.finish()
